@@ -2,3 +2,7 @@ add("C11", "model_checking",
     "Exhaustive enumeration of every (start,end) day pair of calendar windows containing leap day, year, quarter, month and ISO-week boundaries (incl. start>end) x 6 intervals x 5 --last values; periods compared with an independent calendar reference and Align/Contains probed on every day around the window.",
     "Trusted: Go time package for civil dates; small-scope hypothesis for years outside 2019-2021.",
     "bounded exhaustive input enumeration against a reference model", "DESIGN.md 4 C11")
+add("C04", "model_checking",
+    "Every sequence (all file orders) of up to L lifecycle operations over a 72-symbol alphabet (L<=2 quick, <=3 thorough) and a 16-symbol core alphabet (L<=3 quick, <=5 thorough) is run through the real check/print/balance commands in-process; exit status, diagnostic and stdout emptiness are compared with an independent lifecycle automaton.",
+    "Trusted: reference automaton (ref/lifecycle.go), in-process driver (validated against the plain binary on a subset), overlay rewrites. Journals longer than L and other amounts are outside the bound.",
+    "bounded exhaustive operation-sequence enumeration against a reference automaton", "DESIGN.md 4 C04, A.1, A.2")
